@@ -52,7 +52,7 @@ class Sink(io.BytesIO):
         return io.BytesIO.write(self, b)
 
 
-def run_row(mode, row, cuts=None):
+def run_row(mode, row, cuts=None, close_unacked=False):
     op, script, fail_at = row['op'], row['script'], row['failAt']
     dev = simdev.SimDevice(seed=len(script))
     reply = render('pull' if op == 'pullcb' else op, script)
@@ -64,7 +64,7 @@ def run_row(mode, row, cuts=None):
         state['n'] += 1
         if op == 'pullcb' and state['n'] == 2:
             return None                       # the stat() a pull with a callback issues on a stream of its own (opened after the pull's): the ordinary service answers it
-        return simdev.RawSyncService(reply, cuts, then_close='CLSE' in script)
+        return simdev.RawSyncService(reply, cuts, then_close='CLSE' in script, close_unacked=close_unacked)
     dev.service_for = service_for
     dev.fs.add('/f', b'x' * 17)
     sess = env.Session(mode, dev, tick=0.001)
